@@ -2,7 +2,7 @@ from common import LEAN_TB
 
 CHECK = {
     "title": "Nothing is written outside the designated roots",
-    "modules": ["Apko.Proofs.C18", "Apko.Proofs.Lemmas.ConfinePath", "Apko.Proofs.Lemmas.ConfineCache", "Apko.Proofs.Lemmas.ConfineEtag"],
+    "modules": ["Apko.Proofs.C18", "Apko.Proofs.Lemmas.ConfinePath", "Apko.Proofs.Lemmas.ConfineCache", "Apko.Proofs.Lemmas.ConfineEtag", "Apko.Proofs.Lemmas.ConfineKeys"],
     "suites": [("confine", 2500, 60000)],
     "fact_prefixes": ["rwosfs.go", "common.go", "cache.go", "implementation.go", "index.go", "const.go"],
     "hashes": {},
